@@ -89,7 +89,7 @@ PROG_UNLINK = '''
 from edgegraph.traversal.helpers import find_links
 from edgegraph.builder.explicit import unlink
 before = find_links(c, d, False)
-unlink(a, b)
+unlink(a, b, destroy)
 empty = True
 for ds in (True, False):
     for u in (0, 1, 2):
@@ -100,7 +100,8 @@ same_other = (before == after)
 
 
 def scenario(B, p):
-    verts = make_vertices(B, 3)
+    # one pool vertex is of a falsy Vertex subclass
+    verts = make_vertices(B, 3, ["Vertex", "FalsyVertex", "Vertex"])
     links = make_links(B, p["classes"])
     n = len(links)
     symbolic_assoc_state(B, verts, links, n, n, two_ended_wellformed=True)
@@ -133,7 +134,7 @@ def scenario(B, p):
         # {c,d} is another pair than {a,b}
         same_pair = B.or_(B.and_(B.is_(c, a), B.is_(d, b)), B.and_(B.is_(c, b), B.is_(d, a)))
         B.assume(B.not_(same_pair), "other pair")
-        out = B.run(PROG_UNLINK, {"a": a, "b": b, "c": c, "d": d})
+        out = B.run(PROG_UNLINK, {"a": a, "b": b, "c": c, "d": d, "destroy": B.bool("destroy")})
         B.reach("unlink")
         for k, val in snapshot_assoc(B, verts, links).items():
             B.observe("post:" + k, val)
